@@ -103,16 +103,24 @@ def prCias (r : Bool × Bool × Bool) : List Tok :=
   | (false, false, true) => [.a, .rcurly]
   | (false, false, false) => [.rcurly]
 
+/-- the optional groups of a step after its tags -/
+def prRisk (r : Option (Bool × Bool × Bool)) : List Tok :=
+  match r with | some r => .lcurly :: prCias r | none => []
+def prTtcOpt (t : Option TTC) : List Tok :=
+  match t with | some t => .lsquare :: (prTtc 0 false t ++ [.rsquare]) | none => []
+def prRequires (r : Option (List Expr)) : List Tok :=
+  match r with | some l => .requires :: prExprList l | none => []
+def prReaches (r : Option (Bool × List Expr)) : List Tok :=
+  match r with
+  | some (true, l) => .leadsto :: prExprList l
+  | some (false, l) => .inherits :: prExprList l
+  | none => []
+
+/-- `steptype ID tag* cias? ttc? meta* precondition? reaches?` -/
 def prStep (s : CStep) : List Tok :=
-  stepTok s.type :: .id s.name :: (prTags s.tags
-    ++ (match s.risk with | some r => .lcurly :: prCias r | none => [])
-    ++ (match s.ttc with | some t => .lsquare :: (prTtc 0 false t ++ [.rsquare]) | none => [])
-    ++ prMetas s.metaD
-    ++ (match s.requires with | some l => .requires :: prExprList l | none => [])
-    ++ (match s.reaches with
-        | some (true, l) => .leadsto :: prExprList l
-        | some (false, l) => .inherits :: prExprList l
-        | none => []))
+  stepTok s.type :: .id s.name ::
+    (prTags s.tags ++ (prRisk s.risk ++ (prTtcOpt s.ttc ++ (prMetas s.metaD ++
+      (prRequires s.requires ++ prReaches s.reaches)))))
 
 def prVars : List (String × Expr) → List Tok
   | [] => []
